@@ -57,6 +57,12 @@ var xpathExprs = []exprSpec{
 	{"count(x:*) > 0", true, []string{"x"}},
 	{"../x:*[. = 'a'] or y:*", true, []string{"x", "y"}},
 	{"not(x:*)", true, []string{"x"}},
+	// operator names are case sensitive: in operator position anything else is a syntax error
+	{"x:a = 1 AND x:b = 2", false, []string{"x"}},
+	{"x:a Or x:b", false, []string{"x"}},
+	{"../x:n DIV 2 = 1", false, []string{"x"}},
+	{"x:n Mod 2 = 1", false, []string{"x"}},
+	{"x:a = 1 and x:b = 2 or x:n div 2 = 1", true, []string{"x"}},
 }
 
 var pathExprs = []exprSpec{
